@@ -34,6 +34,13 @@ its strips of (A, P, R, A_c) of every level (recorded by the coarsening wrapper)
                      whole non-empty aggregates, unknown left out iff no strong connection, A_c = scale R A P, the
                      coarse near-null space of level l is the near-null space level l+1 starts from and is distributed
                      like the rows of that level.
+  block values       op `bsolve` runs the same make_solver<mpi::amg<...>, runtime solver> at builtin<static_matrix<double,2,2>>
+                     (rhs entries static_matrix<double,2,1>) on block-SPD systems whose 2x2 blocks do NOT commute, 1..4 ranks,
+                     smoothed_aggregation / aggregation x {spai0, damped_jacobi, ilu0} x {cg, bicgstab, gmres}, merge on/off.
+                     Oracles on the gathered BLOCK operators expanded to scalar matrices: rank consistency, truthfulness,
+                     convergence, R = P^T (block adjoint), A_c = scale R A P (exact for aggregation, to rounding for smoothed
+                     aggregation -- this is where the operand order inside mpi::product shows), next level's A = A_c,
+                     finest A = the system matrix, aggregation: P_tent consists of identity blocks, one per aggregated block row.
 """
 import random, re
 from fractions import Fraction as F
@@ -54,6 +61,8 @@ ASSUMPTIONS = [
     "near-null-space prolongation (QR at double, row exchange) are covered by the PmisSpec oracles only; repartitioning (merge), smoothing of P and the "
     "consolidation of the coarse problem are covered by the oracle runs only (no Coq model); ParMETIS/Scotch/PaStiX/Eigen-SparseLU are not installed",
     "PMIS model: the point-to-point messages of a round arrive completely and are applied in neighbour-list (rank) order; strength rows contain the diagonal",
+    "block values (bsolve / bdirect): static_matrix<double,2,2>; the gathered block operators are expanded to scalar matrices by tools/props/C12.py before the "
+    "extracted oracles run; the smoothed-prolongation formula and the block smoothers are not tied under MPI",
     "the rank-lifted solver theorems (DistSolveProofs.v) are about CG and Richardson with abstract distributed preconditioner; "
     "the other Krylov methods are covered by the rank-consistency oracle only",
 ]
@@ -62,7 +71,9 @@ TRUSTED_BASE = ["mpirun/Open MPI 4.1.4, mpicxx (g++ 12); harness/drv_mpi_solve.c
 RULE = ("cases derived from VERIF_SEED by tools/props/C12.py: coarsening {aggregation, smoothed_aggregation} x 9 relaxations x 9 "
         "solvers (+ relaxation-as-preconditioner x solvers), merge repartitioning on/off, SPD M-matrices n = 8..48, random "
         "contiguous partitions with empty ranks; near-null-space cases (cols 0..3, block_size 1/2, grids with thin strips on 2..8 ranks); PMIS model tie: all "
-        "graphs n <= 4 (thorough: 5) x all contiguous partitions on 1..4 ranks, all directed patterns n <= 3, random graphs; non-trivial = all ranks returned a result line")
+        "graphs n <= 4 (thorough: 5) x all contiguous partitions on 1..4 ranks, all directed patterns n <= 3, random graphs; block values (ops bsolve / bdirect, own random "
+        "stream seed*1000+1212): block-SPD systems with non-commuting 2x2 dyadic blocks, 2 coarsenings x 3 relaxations x 3 solvers, merge on/off, 1..4 (1..8) ranks; "
+        "non-trivial = all ranks returned a result line")
 
 COARSENINGS = ["aggregation", "smoothed_aggregation"]
 RELAX = ["spai0", "damped_jacobi", "gauss_seidel", "ilu0", "iluk", "ilup", "ilut", "spai1", "chebyshev"]
@@ -164,6 +175,8 @@ def cases(tier, seed):
                     f = [F(r.randint(-4, 4), r.choice([1, 2])) for _ in range(n)]
                     if all(v == 0 for v in f): f[0] = F(1)
                     add(np_, "solve", " ".join(cfg), "--", fmt_crs(n, n, M), fmt_ivec(p), fmt_vec(f), fmt_vec([F(0)] * n), 1)
+    # ---- block value types: static_matrix<double,2,2> (own random stream: the cases above keep ids and payloads)
+    out += bsolve_cases(tier, seed)
     # ---- PMIS model tie (Pmis.v): pattern graphs x contiguous partitions, exhaustive for small n
     import itertools
     def graph_case(np_, n, edges, p, eps="0", w=None):
@@ -218,6 +231,207 @@ def cases(tier, seed):
         add(np_, "pmis", "eps_strong=%s block_size=1" % r.choice(["2/25", "1/4", "1/2", "0"]), "--", fmt_crs(n, n, M),
             fmt_ivec(gen.rcomposition(r, n, np_, empty_bias=0.15)), 0, fmt_vec([]))
     return out
+
+
+# ---------------------------------------------------------------- block value types
+from props import blockvals as bv
+BSPD = [[[F(2), F(1)], [F(1), F(2)]], [[F(2), F(0)], [F(0), F(1)]], [[F(1), F(0)], [F(0), F(1)]], [[F(2), F(-1)], [F(-1), F(1)]],
+        [[F(1), F(1, 2)], [F(1, 2), F(1)]], [[F(1), F(0)], [F(0), F(4)]], [[F(3), F(1)], [F(1), F(1)]]]
+B_RELAX = ["spai0", "damped_jacobi", "ilu0"]
+B_SOLVERS = ["cg", "bicgstab", "gmres"]
+
+def block_spd(r, n):
+    """block-SPD matrix with dyadic 2x2 blocks on a random connected graph: A_ij = A_ji = -W_e (W_e symmetric positive definite,
+    drawn from a set of mutually NON-commuting blocks), A_ii = sum of the W_e + a positive (semi)definite shift; sorted rows"""
+    edges = {}
+    for i in range(1, n):
+        j = r.randrange(max(0, i - 3), i); edges[(j, i)] = bv.bl_scale(r.choice([F(1), F(1), F(2), F(1, 2)]), r.choice(BSPD))
+    for _ in range(r.randint(0, n // 2)):
+        i, j = r.randrange(n), r.randrange(n)
+        if i != j: edges[(min(i, j), max(i, j))] = bv.bl_scale(r.choice([F(1), F(1, 2)]), r.choice(BSPD))
+    rows = [dict() for _ in range(n)]
+    for (i, j), W in edges.items():
+        rows[i][j] = bv.bl_scale(F(-1), W); rows[j][i] = bv.bl_scale(F(-1), W)
+    for i in range(n):
+        D = bv.bl_zero(2)
+        for j, W in rows[i].items(): D = bv.bl_add(D, bv.bl_scale(F(-1), W))
+        if i == 0 or r.random() < 0.3: D = bv.bl_add(D, bv.bl_scale(r.choice([F(1), F(1, 2)]), r.choice(BSPD)))
+        rows[i][i] = D
+    return [sorted(rw.items()) for rw in rows]
+
+def bsolve_cases(tier, seed):
+    r = random.Random(seed * 1000 + 1212)
+    quick = tier == "quick"
+    out = []; cnt = {}
+    for np_ in ([1, 2, 3, 4] if quick else [1, 2, 3, 4, 5, 6, 8]):
+        for c in COARSENINGS:
+            for it in range((3 if np_ == 1 else 8) if quick else 24):
+                n = r.randint(max(6, np_), 28 if quick else 48)
+                A = block_spd(r, n)
+                p = gen.rcomposition(r, n, np_, empty_bias=0.15)
+                f = [F(r.randint(-4, 4), r.choice([1, 2])) for _ in range(2 * n)]
+                if all(v == 0 for v in f): f[0] = F(1)
+                pre = "precond."
+                cfg = ["precond.class=amg", pre + "coarsening.type=" + c, pre + "relax.type=" + r.choice(B_RELAX),
+                       pre + "coarse_enough=%d" % r.choice([1, 2, 3]), pre + "direct_coarse=%s" % r.choice(["true", "true", "false"]),
+                       pre + "repart.enable=%s" % ("true" if r.random() < 0.4 else "false"), pre + "repart.shrink_ratio=%d" % r.choice([2, 2, 8]),
+                       pre + "npre=1", pre + "npost=1"]
+                if c == "aggregation":
+                    cfg += [pre + "coarsening.over_interp=%d" % r.choice([1, 2]),
+                            pre + "coarsening.aggr.eps_strong=%s" % r.choice(["0.25", "0.125", "0.08", "0"])]
+                cfg += ["solver.type=" + r.choice(B_SOLVERS), "solver.tol=" + TOL, "solver.maxiter=%d" % MAXITER]
+                x0 = [F(0)] * (2 * n) if r.random() < 0.7 else [F(r.randint(-2, 2)) for _ in range(2 * n)]
+                k = cnt.get(np_, 0); cnt[np_] = k + 1
+                out.append("p%d.b%d bsolve %s -- 2 %s %s %s %s 2" % (np_, k, " ".join(cfg), bv.fmt_bcrs(n, n, A), fmt_ivec(p), fmt_vec(f), fmt_vec(x0)))
+        # distributed direct solver on block systems: block rows and rhs blocks consolidated on the master rank
+        for it in range(10 if quick else 40):
+            n = r.randint(1, 16 if quick else 40)
+            A = block_spd(r, n)
+            p = gen.rcomposition(r, n, np_, empty_bias=0.35)
+            f = [F(r.randint(-4, 4), r.choice([1, 2])) for _ in range(2 * n)]
+            k = cnt.get(np_, 0); cnt[np_] = k + 1
+            out.append("p%d.b%d bdirect 2 %s %s %s" % (np_, k, bv.fmt_bcrs(n, n, A), fmt_ivec(p), fmt_vec(f)))
+    return out
+
+BMAT_RE = re.compile(r"([APRC])(\{[^}]*\})")
+
+def parse_bstrip(s_, b=2):
+    """'{n m | c:v,v,v,v ... | ...}' -> (n, m, rows of (col, block))"""
+    s_ = s_.strip(); assert s_[0] == "{" and s_[-1] == "}", s_[:40]
+    parts = s_[1:-1].split("|")
+    n, m = [int(x) for x in parts[0].split()]
+    rows = []
+    for p_ in parts[1:]:
+        rw = []
+        for e in p_.split():
+            c, v = e.split(":"); vs = [F(x) for x in v.split(",")]; assert len(vs) == b * b
+            rw.append((int(c), bv.bl_unflat(vs, b)))
+        rows.append(rw)
+    assert len(rows) == n
+    return n, m, rows
+
+def assemble_b(strips, b=2):
+    n = 0; m = None; rows = []
+    for s_ in strips:
+        k, mm, rw = parse_bstrip(s_, b)
+        if m is None: m = mm
+        elif m != mm: raise ValueError("ranks disagree on the global column count")
+        n += k; rows += rw
+    return n, m, rows
+
+def expand_tok(M, b=2):
+    """block matrix (n, m, rows) -> token string of the expanded scalar matrix (n*b x m*b)"""
+    n, m, rows = M
+    return fmt_crs(n * b, m * b, bv.b_expand(rows, b))
+
+class BCfg:
+    def __init__(self, line):
+        cid, op, rest = line.split(" ", 2)
+        self.cid, self.op = cid, op
+        head, tail = rest.split(" -- ", 1)
+        self.kv = dict(w.split("=", 1) for w in head.split())
+        t = bv.Toks(tail)
+        self.b = t.i()
+        self.n, m, self.rows = t.bcrs(self.b)
+        self.parts = [t.i() for _ in range(t.i())]
+        self.f = [t.q() for _ in range(t.i())]
+
+def check_bsolve(line, out, np_, olines, fails, ctx):
+    c = BCfg(line); b = c.b
+    def fail(what, **kw):
+        fails.append(dict(kind="counterexample", case=line, impl=(out or "")[:4000], model=None, op=c.op, size=len(line), np=np_,
+                          oracle=dict(op=what, **kw), theorem="C12 block values: %s (%d ranks)" % (what, np_)))
+    if out is None or out.startswith("CRASH"): return fail("terminates on all ranks (no hang / crash)", got=out)
+    per = out.split(" ; ")
+    if len(per) != np_: return fail("one report per rank", got=len(per))
+    if any(p.startswith("EXC") for p in per): return fail("no exception on any rank", got=[p[:200] for p in per])
+    ms = [RANK_RE.match(p) for p in per]
+    if not all(ms): return fail("well-formed report", got=[p[:120] for p in per])
+    ctx["stats"]["oracle_checks"] += 1
+    heads = [m.group(1) for m in ms]
+    if len(set(heads)) != 1: return fail("rank consistency: identical (iters, residual) on every rank", got=heads)
+    h = re.findall(r"it=(\S+) res=(\S+) bits=(\S+)", heads[0])
+    it, res = int(h[-1][0]), h[-1][1]
+    solver = c.kv.get("solver.type")
+    if any(w in m.group(2) for m in ms for w in ("nan", "inf")) or res in ("nan", "inf", "-inf"):
+        return fail("finite solution and residual on every rank", got=[m.group(2)[:80] for m in ms] + [res])
+    x = []
+    for m in ms: x += parse_out_vec(m.group(2))
+    if len(x) != c.n * b: return fail("solution slices cover the system", got=len(x))
+    A_tok = expand_tok((c.n, c.n, c.rows), b)
+    tol = F(res) / 10**6 + F(1, 10**12)
+    olines.append(("truthfulness (block system expanded to scalars)", "%s o.truth %s %s %s %s %s" % (c.cid + ".t", A_tok, fmt_vec(c.f), fmt_vec(x), res, fmt_q(tol))))
+    relax = c.kv.get("precond.relax.type")
+    if solver != "cg" or relax in ("spai0", "damped_jacobi", "ilu0"):
+        ctx["stats"]["oracle_checks"] += 1
+        if not (it < MAXITER and F(res) <= F(TOL) * F(101, 100)):
+            fail("convergence on a block-SPD matrix", got=dict(iters=it, res=float(F(res))))
+    nl = [int(m.group(3)) for m in ms]
+    if len(set(nl)) != 1: return fail("same number of recorded level matrices on every rank", got=nl)
+    seqs = [BMAT_RE.findall(m.group(4)) for m in ms]
+    if any([k for k, _ in s_] != [k for k, _ in seqs[0]] for s_ in seqs):
+        return fail("same level structure on every rank", got=[[k for k, _ in s_] for s_ in seqs])
+    levels = []
+    for idx, (k, _) in enumerate(seqs[0]):
+        try: M = assemble_b([s_[idx][1] for s_ in seqs], b)
+        except Exception as e: return fail("level matrices assemble", got=str(e))
+        if k == "A": levels.append({})
+        if not levels: return fail("level log starts with A", got=k)
+        levels[-1][k] = M
+    coarsening = c.kv.get("precond.coarsening.type")
+    st = ctx["stats"]["by_op"]
+    for li, L in enumerate(levels):
+        if not all(k in L for k in "APR"): return fail("level has A, P, R", got=list(L))
+        tok = {k: expand_tok(L[k], b) for k in L}
+        base = "%s.l%d" % (c.cid, li)
+        if li == 0 and (L["A"][0] != c.n or sorted_rows(L["A"][2]) != sorted_rows(c.rows)):
+            fail("finest level matrix is the system matrix", got=li)
+        olines.append(("R = P^T (transposed block pattern, adjoint blocks)", "%s.tr o.transpose %s %s" % (base, tok["P"], tok["R"])))
+        if coarsening == "aggregation":
+            ctx["stats"]["oracle_checks"] += 1
+            I = bv.bl_id(b); cols = set()
+            for rw in L["P"][2]:
+                if len(rw) > 1 or any(B != I for _, B in rw): fail("aggregation: P_tent has at most one identity block per block row", level=li); break
+                cols.update(cc for cc, _ in rw)
+            else:
+                if cols != set(range(L["P"][1])): fail("aggregation: no empty aggregate", level=li)
+        if "C" in L:
+            # evidence: do the blocks of R and of A*P commute?  (the operand order of the Galerkin product is only visible if not)
+            Rb = [B for rw in L["R"][2] for _, B in rw][:40]; Ab = [B for rw in L["A"][2] for _, B in rw][:40]
+            pairs = [(X, Y) for X in Rb[:8] for Y in Ab[:8]]
+            st["bsolve_block_pairs_R_A"] = st.get("bsolve_block_pairs_R_A", 0) + len(pairs)
+            st["bsolve_block_pairs_R_A_noncommuting"] = st.get("bsolve_block_pairs_R_A_noncommuting", 0) + sum(1 for X, Y in pairs if bv.bl_mul(X, Y) != bv.bl_mul(Y, X))
+            if coarsening == "aggregation":
+                sc = F(1) / F(c.kv.get("precond.coarsening.over_interp", "3/2")); tol = F(0)
+            else:
+                sc = F(1); tol = max([abs(v) for rw in L["C"][2] for _, B in rw for v in bv.bl_flat(B)] + [F(1)]) / 10**9
+            olines.append(("coarse block matrix = scale * R A P (expanded to scalars)", "%s.ga o.galerkin %s %s %s %s %s %s" %
+                           (base, tok["A"], tok["P"], tok["R"], tok["C"], fmt_q(sc), fmt_q(tol))))
+            if li + 1 < len(levels):
+                olines.append(("next level matrix = coarse matrix (also after repartitioning)",
+                               "%s.nx o.same %s %s" % (base, tok["C"], expand_tok(levels[li + 1]["A"], b))))
+
+
+def check_bdirect(line, out, np_, olines, fails, ctx):
+    cid, op, rest = line.split(" ", 2)
+    t = bv.Toks(rest); b = t.i(); n, m, rows = t.bcrs(b); parts_ = [t.i() for _ in range(t.i())]; f = [t.q() for _ in range(t.i())]
+    def fail(what, **kw):
+        fails.append(dict(kind="counterexample", case=line, impl=(out or "")[:2000], model=None, op=op, size=len(line), np=np_,
+                          oracle=dict(op=what, **kw), theorem="C12 block values: %s (%d ranks)" % (what, np_)))
+    if out is None or out.startswith("CRASH"): return fail("terminates on all ranks (no hang / crash)", got=out)
+    per = out.split(" ; ")
+    if len(per) != np_ or any(p.startswith("EXC") for p in per): return fail("no exception on any rank", got=[p[:200] for p in per])
+    x1 = []; x2 = []
+    for p in per:
+        mm = re.match(r"^x=(\[[^\]]*\]) again x=(\[[^\]]*\])$", p)
+        if not mm or "nan" in p or "inf" in p: return fail("well-formed finite report", got=p[:200])
+        x1 += parse_out_vec(mm.group(1)); x2 += parse_out_vec(mm.group(2))
+    ctx["stats"]["oracle_checks"] += 1
+    if x1 != x2: return fail("direct solver object is reusable (same result twice)")
+    if len(x1) != n * b: return fail("solution slices cover the system", got=len(x1))
+    scale = max([abs(v) for v in f] + [F(1)])
+    olines.append(("distributed direct solver returns the solution of the gathered block system (expanded to scalars)",
+                   "%s.d o.solves %s %s %s %s" % (cid, expand_tok((n, n, rows), b), fmt_vec(f), fmt_vec(x1), fmt_q(scale / 10**9))))
 
 
 def grid_spd(r, nx, ny, bs=1):
@@ -701,7 +915,7 @@ def run(ctx, cases_override=None):
             o = impl.get(cid)
             if o is None and crashed and cid not in frag_ids: continue   # not run: an earlier case of its shard hung / crashed
             try:
-                {"solve": check_solve, "pmis": check_pmis, "direct": check_direct}[op](l, o, np_, olines, fails, ctx)
+                {"solve": check_solve, "pmis": check_pmis, "direct": check_direct, "bsolve": check_bsolve, "bdirect": check_bdirect}[op](l, o, np_, olines, fails, ctx)
             except Exception as e:
                 fails.append(dict(kind="counterexample", case=l, impl=(o or "")[:3000], model=None, op=op, size=len(l), np=np_,
                                   oracle=dict(op="well-formed report", error=repr(e)[:300]),
